@@ -108,6 +108,12 @@ func (s CallableSignalSchema[StepData, InputType]) Call(ctx context.Context, ste
 		return InvalidInputError{err}
 	}
 
-	s.handler(ctx, stepData.(StepData), input.(InputType))
+	// A step without an initializer has nil step data; asserting a nil interface to a type parameter
+	// panics even when that type is an interface, so the zero value is passed in that case.
+	var typedStepData StepData
+	if stepData != nil {
+		typedStepData = stepData.(StepData)
+	}
+	s.handler(ctx, typedStepData, input.(InputType))
 	return nil
 }
